@@ -14,6 +14,7 @@ LEVEL = "fault_enumeration"
 ASSUME = [
     "deterministic part: the guarded hook (VERIF_POINT in src/main.cpp, -DINOVESA_VERIF) raises a real SIGINT through the real handler when its counter reaches the requested value; the point log proves where each injection fired; every point of the chosen runs is enumerated once, plus pairs/triples for repeated signals",
     "inside the file writer: an LD_PRELOAD shim (tools/sigshim.c) on the same binary raises a real SIGINT on entry of the n-th H5Dwrite / H5Dset_extent call, i.e. while the program is inside HDF5File::append or the constructor's writes; every such call of the chosen runs is an interrupt point (quick tier: 90 evenly spread per scenario); the shim logs into the same file as the guarded hook, which places each call between two interrupt points of main() and so fixes the step in progress",
+    "one always-enumerated scenario is started the way a non-interactive shell starts a background job (SIGINT inherited as ignored: the program's own handler must still be the one in force) and has a run length that is not a whole number of steps per period; every time stamp must be a whole number of steps",
     "one of the always-enumerated scenarios reads its start distribution from a text file (interrupts before, and with the flag already set during, the read)",
     "asynchronous part: real kill(SIGINT) at random delays, counted from the program's first line of output (the handler is installed before anything is printed: 'after start-up'), into the release binary with the hook dormant (environment unset)",
     "expected step reached: set-up points -> 0; loop points before the step counter is incremented -> step+1; after the increment / final block -> the step shown by the hook",
@@ -35,11 +36,12 @@ def scenarios(seed, tier):
         dict(GridSize=48, StepsPerTs=32, rotations=0.375, outstep=2, SavePhaseSpace=3, WallConductivity=3e7, InterpolationPoints=3),
         dict(GridSize=32, StepsPerTs=16, rotations=0.5, outstep=40, SavePhaseSpace=1, DampingTime=0.0),
         dict(GridSize=32, StepsPerTs=16, rotations=0.5, outstep=3, SavePhaseSpace=1, VacuumGap=0, _starttxt=600),       # start distribution read from a text file
+        dict(GridSize=32, StepsPerTs=23, rotations=0.53, outstep=4, SavePhaseSpace=1, VacuumGap=0, _sigint_ignored=True),   # steps*rotations = 12.19: not a whole number; started with SIGINT inherited as ignored
     ]
-    k = 9 if tier == "thorough" else 3
+    k = 10 if tier == "thorough" else 4
     order = r.shuffle(range(len(base)))
     # scenario 0 (no impedance) and the text-start scenario are always included, the others rotate with the seed
-    chosen = [0, 8] + [i for i in order if i not in (0, 8)][: k - 2]
+    chosen = [0, 8, 9] + [i for i in order if i not in (0, 8, 9)][: k - 3]
     for i in chosen:
         o = dict(base[i])
         if "BunchCurrent" not in o:
@@ -94,6 +96,9 @@ def judge(ctx, h, P, run, ref, ref_steps, res, want_step, w, key_sfx, finished_o
         ctx.violation("C14:no_records" + key_sfx, "interrupted file has no records", w)
         return 0
     s = int(round(float(t[-1]) * steps))
+    frac = float(np.max(np.abs(t.astype(float) * steps - np.rint(t.astype(float) * steps))))
+    if frac > 1e-3:
+        ctx.violation("C14:time_axis:fraction_of_a_step" + key_sfx, "a record of the interrupted run carries a time that is not a whole number of steps", dict(w, times=[float(x) for x in t[-3:]], worst_fraction=frac))
     if want_step is not None and s != want_step:
         ctx.violation("C14:step_reached" + key_sfx, "final record is not for the step in progress when the signal arrived",
                       dict(w, final_step=s, expected=want_step))
@@ -175,7 +180,7 @@ def enumerate_scenario(ctx, idx, o, sdir):
         wd = os.path.join(gd, name)
         os.makedirs(wd, exist_ok=True)
         oo = dict(run); oo.update(extra_opts); oo["output"] = "out.h5"
-        return wd, prog.run_inovesa("rel", oo, wd, xdg, timeout=300, env=env)
+        return wd, prog.run_inovesa("rel", oo, wd, xdg, timeout=300, env=env, inherit_sigint_ignored=bool(o.get("_sigint_ignored")))
 
     go("warm", dict(outstep=0, rotations=0.01), {})
     # reference with every step recorded, and the dry pass that lists the points
@@ -410,7 +415,7 @@ def async_part(ctx, sdir):
 
 def run(ctx):
     ctx.assumptions = ASSUME
-    ctx.rule = ("deterministic: for each chosen short scenario (3 quick / 9 thorough; with/without impedance, tracking, phase-space saving, 1-2 bunches, RF modulation, renormalisation) a dry pass lists every interrupt point, "
+    ctx.rule = ("deterministic: for each chosen short scenario (4 quick / 10 thorough; with/without impedance, tracking, phase-space saving, 1-2 bunches, RF modulation, renormalisation) a dry pass lists every interrupt point, "
                 "then one run per point plus 24/60 runs with 2-3 signals, then one run per HDF5 write call (shim; 90 evenly spread / all) plus 4/8 runs with signals inside two writes; distinct = (scenario, point set); non-trivial = the hook log confirms the injection fired at the intended point. "
                 "asynchronous: real SIGINTs at random delays (1-3 per run) into a 3072-step run")
     sdir = ctx.scratch()
